@@ -79,7 +79,7 @@ pub fn c03_holds(op: CompareOp, later: i64, earlier: i64) -> bool {
 vpv_native!(c03_enumerate_with_filter, "C03/enumerate_with_filter+evaluate_deferred_predicate/number of matches == min(cap, admissible non-empty ordered subsets) (native enumeration: n <= 5 events, v in 0..=2, 6 operators + no filter, caps 1..=2^n)", {
     let ops = [CompareOp::Eq, CompareOp::NotEq, CompareOp::Lt, CompareOp::Le, CompareOp::Gt, CompareOp::Ge];
     let mut ok = true; let mut shown = 0;
-    for n in 0..=5usize {
+    for n in 0..=(if vpv_thorough() { 6usize } else { 5usize }) {
         let total = 3usize.pow(n as u32);
         for code in 0..total {
             let mut vals = Vec::new(); let mut c = code; for _ in 0..n { vals.push((c % 3) as i64); c /= 3; }
